@@ -368,7 +368,7 @@ func Compile(files map[string]string, entry string) (out map[string]any) {
 	}
 	// an import recursion that does not terminate would overflow the Go stack (not recoverable): stop it with an
 	// ordinary panic after far more opens than any generated file set needs
-	mfs := &countingFS{FS: m, left: 20000}
+	mfs := &countingFS{FS: m, left: 400}
 	defer func() {
 		if r := recover(); r != nil {
 			out = map[string]any{"panic": fmt.Sprint(r)}
@@ -389,7 +389,7 @@ type countingFS struct {
 func (c *countingFS) Open(name string) (fs.File, error) {
 	c.left--
 	if c.left < 0 {
-		panic("import recursion does not terminate (more than 20000 file opens)")
+		panic("import recursion does not terminate (more than 400 file opens)")
 	}
 	return c.FS.Open(name)
 }
